@@ -159,7 +159,7 @@ def run():
     docs = docgen.documents(ck, 'blocks')
     from . import blockparse
     n_gen = len(docs)
-    docs = docs + blockparse.documents(ck, 3 if ck.tier == 'quick' else 4, laws=False)       # every short line sequence, read by spec/BlockParse.tla
+    docs = docs + blockparse.documents(ck, 3 if ck.tier == 'quick' else 4, laws=False, deep_more=True)       # every short line sequence, read by spec/BlockParse.tla
     chunk = 400
     jobs = [docs[a:a + chunk] for a in range(0, len(docs), chunk)]
     ctx = mp.get_context('fork')
